@@ -1,6 +1,7 @@
 package bounds
 
 import (
+	"os"
 	"fmt"
 	"go/types"
 	"sort"
@@ -226,6 +227,9 @@ func (it *interp) reduce(s *state) *state {
 		if msigOf(x) != msigOf(y) {
 			v -= 1000
 		}
+		if listSig(x) != listSig(y) {
+			v -= 3000 // the paths know the last element of different lists (lists.go): merging forgets both
+		}
 		if it.reduceTag != "" && x.tags[it.reduceTag] != y.tags[it.reduceTag] {
 			v -= 5000 // different caller paths: merge the callee's outcomes of one path first
 		}
@@ -259,7 +263,7 @@ func (it *interp) reduce(s *state) *state {
 }
 
 func repEqual(a, b rep) bool {
-	if a.kind != b.kind {
+	if a.kind != b.kind || a.lst != b.lst {
 		return false
 	}
 	le := func(x, y *lin.Lin) bool {
@@ -312,6 +316,7 @@ func (it *interp) merge(a, b *disjunct) *disjunct {
 		k      valKey
 		la, lb *lin.Lin
 		at     *lin.Lin
+		isLen  bool // the length of a slice value or cell (the constant-difference hull is tried for these only)
 	}
 	var pend []pending
 	var mergeRep func(k valKey, ra, rb rep, depth int) (rep, bool)
@@ -325,21 +330,21 @@ func (it *interp) merge(a, b *disjunct) *disjunct {
 		switch {
 		case ra.kind == kInt && rb.kind == kInt && ra.lin != nil && rb.lin != nil:
 			at := it.valAtom(k.f, k.v)
-			pend = append(pend, pending{k, ra.lin, rb.lin, at})
+			pend = append(pend, pending{k, ra.lin, rb.lin, at, false})
 			return rep{kind: kInt, lin: at}, true
 		case ra.kind == kSlice && rb.kind == kSlice && ra.len != nil && rb.len != nil:
 			l, c := it.lenAtom(k.f, k.v)
-			pend = append(pend, pending{k, ra.len, rb.len, l}, pending{k, ra.cap, rb.cap, c})
+			pend = append(pend, pending{k, ra.len, rb.len, l, true}, pending{k, ra.cap, rb.cap, c, false})
 			m.addFact(lin.LE(l, c))
 			nl := it.nilAtom(k.f, k.v)
 			if ra.isnil != nil && rb.isnil != nil {
-				pend = append(pend, pending{k, ra.isnil, rb.isnil, nl})
+				pend = append(pend, pending{k, ra.isnil, rb.isnil, nl, false})
 			}
 			return rep{kind: kSlice, len: l, cap: c, isnil: nl}, true
 		case ra.kind == kPtr && rb.kind == kPtr:
 			nl := it.nilAtom(k.f, k.v)
 			if ra.isnil != nil && rb.isnil != nil {
-				pend = append(pend, pending{k, ra.isnil, rb.isnil, nl})
+				pend = append(pend, pending{k, ra.isnil, rb.isnil, nl, false})
 			}
 			r := rep{kind: kPtr, isnil: nl}
 			if ra.at != nil && rb.at != nil && ra.at.key() == rb.at.key() {
@@ -422,7 +427,7 @@ func (it *interp) merge(a, b *disjunct) *disjunct {
 				lo, hi, hl, hh := intRange(ref.typ)
 				it.at.setRange(id, lo, hi, hl, hh)
 				at := lin.Var(id)
-				pend = append(pend, pending{valKey{}, ra.lin, rb.lin, at})
+				pend = append(pend, pending{valKey{}, ra.lin, rb.lin, at, false})
 				m.mem[k] = &memCell{a: ref.a, typ: ref.typ, val: rep{kind: kInt, lin: at}}
 				merged = true
 			case ra.kind == kSlice && rb.kind == kSlice && ra.len != nil && rb.len != nil && ra.cap != nil && rb.cap != nil:
@@ -430,14 +435,14 @@ func (it *interp) merge(a, b *disjunct) *disjunct {
 				it.at.setRange(li, 0, 0, true, false)
 				it.at.setRange(ci, 0, 0, true, false)
 				l, c := lin.Var(li), lin.Var(ci)
-				pend = append(pend, pending{valKey{}, ra.len, rb.len, l}, pending{valKey{}, ra.cap, rb.cap, c})
+				pend = append(pend, pending{valKey{}, ra.len, rb.len, l, true}, pending{valKey{}, ra.cap, rb.cap, c, false})
 				m.addFact(lin.LE(l, c))
 				r := rep{kind: kSlice, len: l, cap: c}
 				if ra.isnil != nil && rb.isnil != nil {
 					ni := it.at.fresh("isnil(mem" + ref.a.path + ")")
 					it.at.setRange(ni, 0, 1, true, true)
 					r.isnil = lin.Var(ni)
-					pend = append(pend, pending{valKey{}, ra.isnil, rb.isnil, r.isnil})
+					pend = append(pend, pending{valKey{}, ra.isnil, rb.isnil, r.isnil, false})
 				}
 				m.mem[k] = &memCell{a: ref.a, typ: ref.typ, val: r}
 				merged = true
@@ -447,7 +452,7 @@ func (it *interp) merge(a, b *disjunct) *disjunct {
 					ni := it.at.fresh("isnil(mem" + ref.a.path + ")")
 					it.at.setRange(ni, 0, 1, true, true)
 					r.isnil = lin.Var(ni)
-					pend = append(pend, pending{valKey{}, ra.isnil, rb.isnil, r.isnil})
+					pend = append(pend, pending{valKey{}, ra.isnil, rb.isnil, r.isnil, false})
 				}
 				if ra.at != nil && rb.at != nil && ra.at.key() == rb.at.key() {
 					r.at = ra.at
@@ -507,6 +512,27 @@ func (it *interp) merge(a, b *disjunct) *disjunct {
 	}
 	tryKeep(fa, b.fkeys, db)
 	tryKeep(fb, a.fkeys, da)
+	// values that differ on the two sides but whose difference (or sum) is the same expression on both
+	// keep that relation between their merged atoms (r = n - w stays r + w = n when w and r are merged)
+	if len(pend) <= 40 && os.Getenv("RTPCHECK_NOPAIR") == "" {
+		for i := 0; i < len(pend); i++ {
+			for j := i + 1; j < len(pend); j++ {
+				p, q := pend[i], pend[j]
+				if p.la == nil || p.lb == nil || q.la == nil || q.lb == nil || p.la.Bad() || p.lb.Bad() || q.la.Bad() || q.lb.Bad() {
+					continue
+				}
+				if da, db := p.la.Sub(q.la), p.lb.Sub(q.lb); da.Equal(db) && len(da.Vars()) <= 3 {
+					for _, e := range lin.EQ(p.at.Sub(q.at), da) {
+						m.addFact(e)
+					}
+				} else if sa, sb := p.la.Add(q.la), p.lb.Add(q.lb); sa.Equal(sb) && len(sa.Vars()) <= 3 {
+					for _, e := range lin.EQ(p.at.Add(q.at), sa) {
+						m.addFact(e)
+					}
+				}
+			}
+		}
+	}
 	// hull candidates for the pending atoms: bounds by each side's expression and small
 	// constants, plus every fact one side knows about its own value (when that value is a single
 	// variable) re-stated for the merged atom
@@ -528,6 +554,36 @@ func (it *interp) merge(a, b *disjunct) *disjunct {
 					cands = append(cands, q.Subst(v, repl))
 					n++
 					if n > 12 {
+						break
+					}
+				}
+			}
+		}
+		// both sides give the value as a constant (1 octet on one path, 2 on the other): a fact that the two
+		// sides state with the same linear part and constants that differ by a multiple of the values'
+		// difference is the same fact about the merged atom (x + 1 <= y and x + 2 <= y become x + at <= y)
+		if ca, okA := p.la.ConstVal(); okA && p.isLen && os.Getenv("RTPCHECK_NOCDIFF") == "" {
+			if cb, okB := p.lb.ConstVal(); okB && ca != cb {
+				byPart := map[string]int64{}
+				for _, q := range b.facts {
+					if len(q.L.Vars()) >= 1 && len(q.L.Vars()) <= 4 {
+						byPart[q.L.AddConst(-q.L.ConstTerm()).Key()] = q.L.ConstTerm()
+					}
+				}
+				n := 0
+				for _, q := range a.facts {
+					if len(q.L.Vars()) < 1 || len(q.L.Vars()) > 4 {
+						continue
+					}
+					part := q.L.AddConst(-q.L.ConstTerm())
+					kb, ok := byPart[part.Key()]
+					ka := q.L.ConstTerm()
+					if !ok || ka == kb || (ka-kb)%(ca-cb) != 0 {
+						continue
+					}
+					lam := (ka - kb) / (ca - cb)
+					cands = append(cands, lin.Ineq{L: q.L.Add(p.at.AddConst(-ca).Scale(lam))})
+					if n++; n > 6 {
 						break
 					}
 				}
@@ -684,6 +740,11 @@ func (it *interp) doReturn(f frameID, fn *ssa.Function, ret *ssa.Return, s *stat
 		for _, r := range ret.Results {
 			nd.rets = append(nd.rets, it.repOf(nd, f, r))
 		}
+		if it.finfo[f].depth == 0 && it.record {
+			if ms := it.modular[funcFullName(fn)]; ms != nil && ms.Post != nil && len(nd.rets) == 1 && nd.rets[0].kind == kInt && nd.rets[0].lin != nil {
+				it.checkPost(f, fn, ret, nd, ms)
+			}
+		}
 		if it.finfo[f].depth == 0 && it.record && it.hooks != nil && it.hooks.AtReturn != nil {
 			it.hooks.AtReturn(&Helper{it: it, f: f, fn: fn, in: ret}, fn, ret, &Disjunct{d: nd, it: it, f: f})
 		}
@@ -778,4 +839,62 @@ func mergeTags(a, b string) string {
 	}
 	sort.Strings(ts)
 	return strings.Join(ts, "+")
+}
+
+// checkPost proves the postcondition of a modularly analysed function at one of its returns.
+func (it *interp) checkPost(f frameID, fn *ssa.Function, ret *ssa.Return, nd *disjunct, ms *ModSpec) {
+	var params []ssa.Value
+	for _, pa := range fn.Params {
+		params = append(params, pa)
+	}
+	res := nd.rets[0].lin
+	common, alts := ms.Post(&Disjunct{d: nd, it: it, f: f}, params, res)
+	ok := it.entailsAll(nd, common)
+	why := ""
+	if !ok {
+		why = "common part not entailed"
+	}
+	// the guards cover every result: no result satisfies common and falsifies every guard. Each guard is
+	// a conjunction; its negation is a disjunction, so coverage is checked guard by guard on the interval
+	// structure the specs use: a result outside all guards would make every guard infeasible.
+	covered := false
+	for _, a := range alts {
+		t := nd.clone()
+		t.addFacts(a.Guard...)
+		if !it.feasible(t) {
+			continue
+		}
+		covered = true
+		if !it.entailsAll(t, a.Concl) {
+			ok = false
+			if why == "" {
+				why = "under guard " + it.describe(t, a.Concl[0])
+			}
+		}
+	}
+	if !covered && it.feasible(nd) {
+		ok, why = false, "no alternative of the postcondition is feasible at this return"
+	}
+	// coverage: no result at this return falsifies every guard (one negated literal per guard, all
+	// combinations infeasible); a.L <= 0 negated is -a.L + 1 <= 0 over the integers
+	if ok && len(alts) <= 4 {
+		var rec func(i int, t *disjunct) bool
+		rec = func(i int, t *disjunct) bool {
+			if i == len(alts) {
+				return !it.feasible(t)
+			}
+			for _, g := range alts[i].Guard {
+				t2 := t.clone()
+				t2.addFact(lin.Ineq{L: g.L.Scale(-1).AddConst(1)})
+				if !rec(i+1, t2) {
+					return false
+				}
+			}
+			return true
+		}
+		if !rec(0, nd.clone()) {
+			ok, why = false, "a result outside every guard of the postcondition is possible at this return"
+		}
+	}
+	it.oblige(fn, ret, "CTR", "post: "+ms.PostText, ok, func() string { return why })
 }
